@@ -231,7 +231,9 @@ def r144(ctx, fx):
         ("mos::lsp::rename::RenameHandler", "next"): "groups edits per file into a map; edits of one file are disjoint ranges",
         ("mos_core::codegen::analysis::Definition::contains", "any"): "existential test",
         ("mos_core::codegen::analysis::Definition::try_get_usage_containing", "find"): "usages of one definition do not overlap: at most one contains a position",
-        ("mos_core::codegen::analysis::Analysis::find_filter", "collect"): "definitions containing a position; see `first-of-hash` below for callers that pick one",
+        ("mos_core::codegen::analysis::Analysis::find_filter", "sorted_by"): "sorted by (length of the narrowest matching span, DefinitionType); the DefinitionType is the "
+                                                                               "key of the map the entries come from, hence unique: a total order",
+        ("mos::lsp::rename::RenameHandler", "find"): "looks up the one child of the defining scope whose index is the renamed symbol's (its name there)",
     }
     n = 0
     for key, f, t, name, verdict, reason in classify(fx, for_c14=True):
